@@ -463,4 +463,8 @@ def run(run: Run):
     run.rule('C03.R10', 'a workbook of dependent formulas gives every cell the same value in the whole-file translation and in each entry-point slice, end to end by evaluation')
     _cached_guard(run, 'C03.R10', _pe.book_obligations, 'C03.R10', 'C03.R10', get_source(), _gg_pe(get_source()))
     run.floor('C03.R10', 25)
+    run.rule('C03.R11', 'a workbook whose formulas depend on themselves is rejected, whole file and from an entry point inside the cycle, end '
+                        'to end by evaluation')
+    _cached_guard(run, 'C03.R11', _pe.cycle_obligations, 'C03.R11', get_source(), _gg_pe(get_source()))
+    run.floor('C03.R11', 8)
     return INFO
